@@ -647,6 +647,174 @@ fn run_history(sink: &mut CaseSink, st: &mut Stats, input: &Value, tags: &[&str]
     sink.case("history", input.clone(), coq, tags);
 }
 
+// ------------------------------------------------------------------ the global bound with several live solvers
+/// a small strictly feasible conic problem whose "large" right-hand sides are absolute values, so
+/// that the set of dropped / capped rows depends on the bound in force when the solver is built
+fn gen_gproblem(rng: &mut Rng) -> Value {
+    let alpha = vec![C::Z(1), C::NN(1), C::NN(2), C::NN(3), C::SOC(1), C::SOC(2), C::SOC(3), C::EXP, C::PSD(1), C::PSD(2), C::NN(0), C::NN(2)];
+    let nc = 1 + rng.below(3);
+    let mut cones: Vec<C> = (0..nc).map(|_| rng.pick(&alpha).clone()).collect();
+    cones.insert(rng.below(cones.len() + 1), C::NN(1 + rng.below(2)));
+    let m = total(&cones);
+    let n = 1 + rng.below(2);
+    let a: Vec<Vec<f64>> = (0..m).map(|_| (0..n).map(|_| if rng.chance(1, 3) { 0.0 } else { rng.range(-3, 3) as f64 }).collect()).collect();
+    let x0: Vec<f64> = (0..n).map(|_| rng.range(-2, 2) as f64).collect();
+    let mut s0 = vec![];
+    let mut z0 = vec![];
+    let mut scalar = vec![];
+    for c in &cones {
+        s0.extend(interior(c, false, rng));
+        z0.extend(interior(c, true, rng));
+        scalar.extend(vec![c.scalar(); c.nvars()]);
+    }
+    let bigs = [5e2, 5e3, 5e7, f64::INFINITY, 1e25, 1e3, 50.0];
+    let mut b = vec![0.0; m];
+    let mut any = false;
+    for i in 0..m {
+        let ax: f64 = (0..n).map(|j| a[i][j] * x0[j]).sum();
+        let big = (scalar[i] && rng.chance(1, 2)) || rng.chance(1, 12);
+        b[i] = if big { z0[i] = 0.0; any = any || scalar[i]; *rng.pick(&bigs) } else { ax + s0[i] };
+    }
+    if !any {
+        // make sure some nonnegative row is droppable
+        for i in 0..m { if scalar[i] { b[i] = *rng.pick(&bigs); z0[i] = 0.0; break; } }
+    }
+    let q: Vec<f64> = (0..n).map(|j| -(0..m).map(|i| a[i][j] * z0[i]).sum::<f64>()).collect();
+    json!({"op": "new", "presolve": !rng.chance(1, 6), "cones": cones_json(&cones), "n": n, "A": dense_json(&a), "b": fjv(&b), "q": fjv(&q)})
+}
+
+fn gen_ghistory(rng: &mut Rng, len: usize) -> Value {
+    let vals = [1e20, 1e3, 1e6, 50.0, (2.0f64).powi(40), 1e30, 1e20, 7.0e2];
+    let maxs = 1 + rng.below(3);
+    let mut ops: Vec<Value> = vec![];
+    let mut built: Vec<usize> = vec![]; // user's m of every solver
+    while ops.len() < len {
+        let r = rng.below(12);
+        if built.is_empty() && (r >= 5 || ops.len() + 2 >= len) {
+            let p = gen_gproblem(rng);
+            built.push(p["b"].as_array().unwrap().len());
+            ops.push(p);
+            continue;
+        }
+        match r {
+            0 | 1 | 2 => ops.push(json!({"op": "set", "v": fj(*rng.pick(&vals))})),
+            3 => ops.push(json!({"op": "default"})),
+            4 => ops.push(json!({"op": "get"})),
+            5 | 6 => {
+                if built.len() < maxs {
+                    let p = gen_gproblem(rng);
+                    built.push(p["b"].as_array().unwrap().len());
+                    ops.push(p);
+                } else { ops.push(json!({"op": "set", "v": fj(*rng.pick(&vals))})); }
+            }
+            7 | 8 | 9 | 10 => ops.push(json!({"op": "solve", "k": rng.below(built.len())})),
+            _ => {
+                let k = rng.below(built.len());
+                let m = built[k];
+                let nb: Vec<f64> = match rng.below(6) {
+                    0 => vec![],
+                    1 => vec![1.0; m + 1],
+                    _ => (0..m).map(|_| if rng.chance(1, 6) { *rng.pick(&[5e2, 5e3, 2e3]) } else { rng.range(0, 9) as f64 }).collect(),
+                };
+                ops.push(json!({"op": "update", "k": k, "b": fjv(&nb)}));
+            }
+        }
+    }
+    json!({"c0": fj(*rng.pick(&vals)), "ops": ops})
+}
+
+fn run_ghistory(sink: &mut CaseSink, st: &mut Stats, input: &Value, tags: &[&str]) {
+    let c0 = jf(&input["c0"]);
+    let ops = input["ops"].as_array().unwrap().clone();
+    clarabel::set_infinity(c0);
+    let mut solvers: Vec<Option<DefaultSolver<f64>>> = vec![];
+    let mut coq_ops: Vec<String> = vec![];
+    let mut outs: Vec<String> = vec![];
+    let mut bounds_seen: Vec<u64> = vec![];
+    for o in &ops {
+        match o["op"].as_str().unwrap() {
+            "set" => { let v = jf(&o["v"]); clarabel::set_infinity(v); coq_ops.push(format!("GSet {}", cfl(v))); outs.push("RNone".into()); }
+            "default" => { clarabel::default_infinity(); coq_ops.push("GDefault".into()); outs.push("RNone".into()); }
+            "get" => { coq_ops.push("GGet".into()); outs.push(format!("(RGet {})", cfl(clarabel::get_infinity()))); }
+            "new" => {
+                let cones = cones_from_json(&o["cones"]);
+                let n = o["n"].as_u64().unwrap() as usize;
+                let a = dense_to_csc(&dense_from_json(&o["A"]), n);
+                let b = jfv(&o["b"]);
+                let q = jfv(&o["q"]);
+                let pe = o["presolve"].as_bool().unwrap();
+                let s = do_build(&a, &b, &q, &cones, pe, false);
+                coq_ops.push(format!("(GNew {} (decode {}) {} {})", pe, raw_coq(&a), cfllist(&b), cones_coq(&cones)));
+                outs.push(match &s {
+                    Some(s) => { let ob = observe_build(s);
+                        if ob.keep.is_some() { st.bump("ghistory:new:reduced"); } else { st.bump("ghistory:new:not-reduced"); }
+                        format!("(RNew {} {} {})", optkeep_coq(&ob.keep), cfllist(&ob.b), cones_coq(&ob.cones)) }
+                    None => "RPanic".into(),
+                });
+                let cur = clarabel::get_infinity().to_bits();
+                if !bounds_seen.contains(&cur) { bounds_seen.push(cur); }
+                solvers.push(s);
+            }
+            "solve" => {
+                let k = o["k"].as_u64().unwrap() as usize;
+                coq_ops.push(format!("GSolve {}", k));
+                let mut obs = "RPanic".to_string();
+                if let Some(Some(s)) = solvers.get_mut(k) {
+                    if guarded(|| s.solve()).is_some() {
+                        obs = format!("(RSolve {} {} {})", cfllist(&s.solution.s), cfllist(&s.solution.z), cfllist(&s.data.b));
+                        st.bump("ghistory:solve");
+                    } else { st.bump("ghistory:solve-panicked"); }
+                }
+                outs.push(obs);
+            }
+            "update" => {
+                let k = o["k"].as_u64().unwrap() as usize;
+                let nb = jfv(&o["b"]);
+                coq_ops.push(format!("GUpdateB {} {}", k, cfllist(&nb)));
+                let mut obs = "RPanic".to_string();
+                if let Some(Some(s)) = solvers.get_mut(k) {
+                    if let Some(r) = guarded(|| s.update_b(&nb)) {
+                        if r.is_ok() { st.bump("ghistory:update:accepted"); } else { st.bump("ghistory:update:rejected"); }
+                        obs = format!("(RUpd {} {})", r.is_ok(), cfllist(&s.data.b));
+                    }
+                }
+                outs.push(obs);
+            }
+            k => panic!("unknown ghistory op {}", k),
+        }
+    }
+    if bounds_seen.len() >= 2 { st.bump("ghistory:solvers-built-under-different-bounds"); }
+    let coq = format!("(c_ghistory {} {} {} {})", cfl(1e20), cfl(c0), clist(&coq_ops, |x| x.clone()), clist(&outs, |x| x.clone()));
+    sink.case("ghistory", input.clone(), coq, tags);
+}
+
+// ------------------------------------------------------------------ collapse alone
+fn gen_collapse(rng: &mut Rng) -> Value {
+    let alpha = vec![C::NN(1), C::NN(2), C::NN(0), C::SOC(1), C::PSD(1), C::Z(1), C::Z(0), C::Z(2), C::SOC(0), C::PSD(0),
+                     C::SOC(2), C::SOC(3), C::EXP, C::POW(0.5), C::GP(vec![0.5, 0.5], 1), C::PSD(2), C::NN(3), C::SOC(1), C::Z(1), C::NN(1)];
+    let nc = rng.below(13);
+    let cones: Vec<C> = (0..nc).map(|_| rng.pick(&alpha).clone()).collect();
+    json!({"cones": cones_json(&cones)})
+}
+fn run_collapse(sink: &mut CaseSink, st: &mut Stats, input: &Value, tags: &[&str]) {
+    let cones = cones_from_json(&input["cones"]);
+    let m = total(&cones);
+    let ad = small_a(m, 1);
+    let a = dense_to_csc(&ad, 1);
+    let b = vec![0.0; m];
+    clarabel::default_infinity();
+    let coq = match do_build(&a, &b, &[1.0], &cones, false, false) {
+        Some(s) => {
+            let out: Vec<C> = s.data.cones.iter().map(C::of_rust).collect();
+            let ok = params_of(&cones) == params_of(&out) && s.data.m == m;
+            st.bump("collapse");
+            format!("(N.max (c_collapse {} {}) (ofb {}))", cones_coq(&cones), cones_coq(&out), ok)
+        }
+        None => { st.bump("collapse:panicked"); "1%N".to_string() }
+    };
+    sink.case("collapse", input.clone(), coq, tags);
+}
+
 // ------------------------------------------------------------------ presolve together with chordal decomposition
 /// maximise t subject to M - t*I >= 0 (M tridiagonal 4x4, so the PSD(4) constraint is chordally
 /// sparse and gets decomposed with default settings), t + s_i = b_i for k nonnegative rows, some
@@ -745,6 +913,8 @@ fn main() {
             "solve" => run_solve(sink, st, inp, tags),
             "history" => run_history(sink, st, inp, tags),
             "chordal" => run_chordal(sink, st, inp, tags),
+            "ghistory" => run_ghistory(sink, st, inp, tags),
+            "collapse" => run_collapse(sink, st, inp, tags),
             _ => {}
         }
     };
@@ -783,6 +953,16 @@ fn main() {
                     run_chordal(&mut sink, &mut st, &input, &["chordal"]);
                 }
             }
+        }
+        let ngh = if thorough { 2500 } else { 300 };
+        for k in 0..ngh {
+            let input = gen_ghistory(&mut rng, 3 + k % 10);
+            run_ghistory(&mut sink, &mut st, &input, &["ghistory"]);
+        }
+        let ncol = if thorough { 6000 } else { 600 };
+        for _ in 0..ncol {
+            let input = gen_collapse(&mut rng);
+            run_collapse(&mut sink, &mut st, &input, &["collapse"]);
         }
         let nhist = if thorough { 600 } else { 120 };
         for k in 0..nhist {
